@@ -165,10 +165,11 @@ def generate(rng, opts):
             "store_source": rng.random() < 0.7,
             # a long-lived loader whose public option attributes are switched after construction
             "late_options": rng.random() < 0.25,
+            "sp_missing": inspect_mode != "static" and rng.random() < 0.15,
         }
         ops.append(op)
     # a long-lived process does not clean sys.modules between two loads
-    return {"world": {"modules": modules, "compiled": compiled, "stubs": stubs, "pkgutil_init": cfg["pkgutil_init"], "pyc_top": cfg["pyc_top"], "pyc_top_name": pyc_name, "lazy_pkg": cfg["lazy_pkg"], "lazy_getattr": cfg["lazy_getattr"], "getattr_mutates": cfg["lazy_getattr"] and rng.random() < 0.5, "pth_import": cfg["pth_import"]}, "ops": ops, "cfg": cfg, "keep_modules": rng.random() < 0.4,
+    return {"world": {"modules": modules, "compiled": compiled, "stubs": stubs, "pkgutil_init": cfg["pkgutil_init"], "pyc_top": cfg["pyc_top"], "pyc_top_name": pyc_name, "pyc_getattr": cfg["pyc_top"] and rng.random() < 0.4, "lazy_pkg": cfg["lazy_pkg"], "lazy_getattr": cfg["lazy_getattr"], "getattr_mutates": cfg["lazy_getattr"] and rng.random() < 0.5, "pth_import": cfg["pth_import"]}, "ops": ops, "cfg": cfg, "keep_modules": rng.random() < 0.4,
             # the user (or the tool embedding Griffe) already has the package directory on sys.path
             "sp_on_sys_path": rng.random() < 0.3}
 
@@ -242,7 +243,8 @@ def render_world(world):
     if world.get("pyc_top"):
         # compiled to sourceless bytecode when the world is set up (the path of the sentinel is only known then)
         pyc_name = world.get("pyc_top_name", PYC_TOP)
-        files[f"{pyc_name}.py"] = "\n".join(["import os", f"open(os.path.join('<ROOT>', 'sp0', 'sent', {pyc_name!r}), 'w').close()", "", "def fast():", "    return 1", ""])
+        hook = ["", "def __getattr__(name):", "    import sys", "    sys.path.append('/c15-appended/pyc-getattr-' + name)", "    raise AttributeError(name)", ""] if world.get("pyc_getattr") else []
+        files[f"{pyc_name}.py"] = "\n".join(["import os", f"open(os.path.join('<ROOT>', 'sp0', 'sent', {pyc_name!r}), 'w').close()", "", "def fast():", "    return 1", "", *hook])
     import importlib.machinery as mach
 
     for c in world["compiled"]:
@@ -306,6 +308,10 @@ def _do_op(griffe, op, sp, target):
         "find_stubs_package": op["find_stubs_package"],
     }
     res = {"resolve_aliases": op["resolve_aliases"], "resolve_external": op["resolve_external"], "resolve_implicit": op["resolve_implicit"]}
+    if op.get("sp_missing") and isinstance(target, str):
+        # the search path given to Griffe does not exist (a typo, a directory removed since): with inspection allowed the
+        # package may still be importable through the interpreter's own path
+        sp = sp + "-removed"
     if op["api"] == "load":
         return griffe.load(target, search_paths=[sp], submodules=op["submodules"], store_source=op["store_source"], try_relative_path=isinstance(target, str) and os.sep in target, **kw, **res)
     if op["api"] == "loader":
@@ -645,7 +651,7 @@ class _Prop:
         "forced; resolve_aliases x external x implicit; by name, by path, missing package). Static ops are checked "
         "with audit events, import seams, sentinels, sys.modules and the tree; every op is checked for sys.path "
         "identity+contents and cwd. Non-trivial = every run (each contains at least one judged op); distinct = "
-        "distinct (api/mode/outcome trace, world fault layout). Also drawn: sub-module names that collide with imported stdlib modules, chains of external packages, compiled modules in any package, `check` / `griffe check` operations over a Git repository built from the package (with and without base_ref), histories that keep sys.modules between operations. Round s: a lazily imported package (LazyLoader) in sys.modules outside the search path; PEP 562 lazy packages whose sub-modules first run during member inspection. Round r: a sourceless top-level module named like a standard-library accelerator this process never imports (_sqlite3, _tkinter...), imported by package modules. Round j/k: latin-1 encoded sources with a coding cookie; loaders built with the opposite inspection settings and re-configured through their public attributes before the load."
+        "distinct (api/mode/outcome trace, world fault layout). Also drawn: sub-module names that collide with imported stdlib modules, chains of external packages, compiled modules in any package, `check` / `griffe check` operations over a Git repository built from the package (with and without base_ref), histories that keep sys.modules between operations. Round t/u: dataclasses with a base in a compiled module, __getattr__ hooks that touch sys.path, search paths that do not exist. Round s: a lazily imported package (LazyLoader) in sys.modules outside the search path; PEP 562 lazy packages whose sub-modules first run during member inspection. Round r: a sourceless top-level module named like a standard-library accelerator this process never imports (_sqlite3, _tkinter...), imported by package modules. Round j/k: latin-1 encoded sources with a coding cookie; loaders built with the opposite inspection settings and re-configured through their public attributes before the load."
     )
     COMPONENTS = {
         "real": ["_griffe.loader", "_griffe.importer (sys_path, dynamic_import)", "_griffe.agents.inspector", "_griffe.finder", "_griffe.cli (dump, main)", "CPython import system executing the generated hostile modules"],
